@@ -25,6 +25,18 @@ TEXT = {
             "VecDeque/RefNat reference models, iter_u64_digits() as observation channel, x86_64 only",
             "deterministic simulation: seeded interleaving search of a two-ended iterator vs VecDeque model; perturbing byte/word transport",
             "DESIGN.md section 3, C09"),
+    "C17": ("both serde endpoints and the token transport between them are simulated; seeded search over values, construction routes, "
+            "transport faults (padding, truncation, duplication, wide elements, EOF, lying size_hint, failing serializer/deserializer) with a "
+            "token-level reference model and an allocation cap measured by the simulated allocator. Sampled, not exhaustive.",
+            "serde_model token grammar; TokSerializer/TokDeserializer; SimAlloc request tracking; x86_64 only",
+            "deterministic simulation: simulated serde peers + faulty token transport vs reference token model",
+            "DESIGN.md section 3, C17"),
+    "C18": ("the RNG is replaced by a scripted, logged byte stream; seeded search over streams (stuck-at, adversarial candidates, healing) and call "
+            "histories; results compared with the documented stream function, bounds, canonical form; tiny bounds enumerate every first candidate; "
+            "liveness by construction (every stream heals to zeros, a hang is reported by the watchdog). Sampled, not exhaustive.",
+            "rng_model of the documented stream function; SimRng byte-stream semantics; rand 0.8.8",
+            "deterministic simulation: scripted RNG stream with adversarial/healing segments vs reference stream-function model",
+            "DESIGN.md section 3, C18"),
 }
 
 
